@@ -1,8 +1,11 @@
 //! C20: route origin validation (src/validity.rs, rpki Prefix::covers) vs the Coq model (coq/C20).
 //!
-//! Three streams, selected by the environment variable C20_STREAM:
+//! Two streams, selected by the environment variable C20_STREAM: "validity" (default) and "prefix"
+//! (= the covers cases followed by the parse cases):
 //!   validity (default)  RouteValidity::new + accessors, RouteValidity::into_json,
-//!                       RequestList::{from_plain_reader,from_json_reader,single}::validity + write_json/iter_state
+//!                       RequestList::{from_plain_reader,from_json_reader,single}::validity + write_json/iter_state,
+//!                       GET /api/v1/validity/AS/prefix and GET /validity?asn=&prefix= through the real request
+//!                       dispatcher (srvenv::Env: data set installed by a real validation cycle from SLURM assertions)
 //!   covers              rpki::resources::Prefix::covers
 //!   parse               Prefix::from_str / from_str_relaxed (the well-formedness the model assumes; malformed input)
 use std::net::{IpAddr, Ipv4Addr, Ipv6Addr};
@@ -13,6 +16,7 @@ use rpki::resources::addr::Prefix;
 use rpki::resources::asn::Asn;
 use rpki::rtr::payload::RouteOrigin;
 use rv_harness::paygen::snapshot_of;
+use rv_harness::srvenv::Env;
 use rv_harness::util::*;
 use serde_json::{json, Value};
 
@@ -78,7 +82,7 @@ fn gen_covers(rng: &mut Rng, tier: &str) -> Vec<(String, Value)> {
         }
     }
     // (c) structured random: b random, a = b truncated (covers), or with one bit flipped, or unrelated
-    let n = if tier == "thorough" { 20000 } else { 2000 };
+    let n = if tier == "thorough" { 20000 } else { 1200 };
     for _ in 0..n {
         let v4 = rng.chance(1, 2);
         let m = fam_max(v4);
@@ -114,7 +118,7 @@ fn run_covers(input: &Value) -> CaseOut {
     };
     CaseOut {
         obs, nontrivial: coq_res == "true",
-        coq: format!("{{| cc_a := {}; cc_b := {}; cc_impl := {} |}}", coq_p(a), coq_p(b), coq_res),
+        coq: format!("CCov {{| cc_a := {}; cc_b := {}; cc_impl := {} |}}", coq_p(a), coq_p(b), coq_res),
     }
 }
 
@@ -125,13 +129,14 @@ fn gen_parse(rng: &mut Rng, tier: &str) -> Vec<(String, Value)> {
     let mut push = |class: &str, v4: bool, addr: u128, len: u64| {
         cases.push((class.to_string(), json!({"v4": v4, "addr": addr.to_string(), "len": len})))
     };
-    // (a) exhaustive small scope: addresses with bits only in the top 3 and the lowest position, every length 0..max+2
+    // (a) exhaustive small scope: addresses with bits only in the top 2 (quick) / 3 and the lowest position, every length 0..max+2
+    let topbits = if tier == "thorough" { 3 } else { 2 };
     for v4 in [true, false] {
         let w = if v4 { 32 } else { 128 };
-        for top in 0..8u128 {
+        for top in 0..(1u128 << topbits) {
             for low in 0..2u128 {
-                let addr = (top << (w - 3)) | low;
-                for len in 0..=(w as u64 + 2) { push("exhaustive.top3_low1", v4, addr, len); }
+                let addr = (top << (w - topbits)) | low;
+                for len in 0..=(w as u64 + 2) { push("exhaustive.top_bits_low1", v4, addr, len); }
             }
         }
     }
@@ -147,7 +152,7 @@ fn gen_parse(rng: &mut Rng, tier: &str) -> Vec<(String, Value)> {
         }
     }
     // (c) structured random: mostly valid (host bits cleared), some with host bits, some over-long
-    let n = if tier == "thorough" { 20000 } else { 1200 };
+    let n = if tier == "thorough" { 20000 } else { 700 };
     for _ in 0..n {
         let v4 = rng.chance(1, 2);
         let w = if v4 { 32u32 } else { 128 };
@@ -177,7 +182,7 @@ fn run_parse(input: &Value) -> CaseOut {
     CaseOut {
         obs: json!({"text": text, "strict": show(strict), "relaxed": show(relaxed), "serde": show(serde_p)}),
         nontrivial: relaxed.is_some(),
-        coq: format!("{{| pc_v4 := {}; pc_addr := {}; pc_len := {}; pc_strict := {}; pc_relaxed := {} |}}",
+        coq: format!("CPar {{| pc_v4 := {}; pc_addr := {}; pc_len := {}; pc_strict := {}; pc_relaxed := {} |}}",
             coq_bool(v4), if v4 { addr.to_string() } else { format!("{:#x}", addr) }, len, coq_optp(strict_obs), coq_optp(relaxed)),
     }
 }
@@ -255,7 +260,7 @@ fn rand_route(rng: &mut Rng) -> (bool, u128, u8, u64) {
     (v4, bits, len, rng.range(64496, 64511))
 }
 
-const MODES: [&str; 5] = ["api", "single_json", "list_single", "list_plain", "list_json"];
+const MODES: [&str; 7] = ["api", "single_json", "list_single", "list_plain", "list_json", "http_path", "http_query"];
 
 fn gen_validity(rng: &mut Rng, tier: &str) -> Vec<(String, Value)> {
     let mut cases = Vec::new();
@@ -315,11 +320,11 @@ fn gen_validity(rng: &mut Rng, tier: &str) -> Vec<(String, Value)> {
     // empty data set
     for mode in MODES { cases.push(("boundary.empty_set".into(), json!({"vrps": [], "route": ["192.0.2.0/24", 64496], "mode": mode}))); }
     // (c) structured random: 0..30 VRPs around a random route, duplicates sometimes, every mode, batches with decoys
-    let n = if tier == "thorough" { 12000 } else { 1200 };
+    let n = if tier == "thorough" { 12000 } else { 700 };
     for i in 0..n {
         let mut r = rng.fork();
         let (v4, rbits, rlen, rasn) = rand_route(&mut r);
-        let nv = r.range(0, 24);
+        let nv = r.range(0, 20);
         let mut vrps = Vec::new();
         // bias: some cases without any match so that invalid / reason are reached often
         let allow_match = r.chance(1, 2);
@@ -332,6 +337,16 @@ fn gen_validity(rng: &mut Rng, tier: &str) -> Vec<(String, Value)> {
         r.shuffle(&mut vrps);
         let mode = MODES[i % MODES.len()];
         let mut c = json!({"vrps": vrps, "route": [pfx_str(v4, rbits, rlen), rasn], "mode": mode});
+        if mode.starts_with("http_") {
+            // the handler accepts host bits (from_str_relaxed), a bare AS number, and the arguments in any order
+            if r.chance(1, 3) {
+                let host = rand_bits(&mut r, v4) & !top_mask(rlen);
+                let b = rbits | host;
+                c["route"][0] = json!(if v4 { format!("{}/{}", Ipv4Addr::from((b >> 96) as u32), rlen) } else { format!("{}/{}", Ipv6Addr::from(b), rlen) });
+            }
+            c["as_prefix"] = json!(r.chance(1, 2));
+            c["swap"] = json!(r.chance(1, 2));
+        }
         if mode.starts_with("list_") && mode != "list_single" {
             let decoy = |r: &mut Rng| { let (a, b, c, d) = rand_route(r); json!([pfx_str(a, b, c), d]) };
             c["before"] = json!((0..r.range(0, 3)).map(|_| decoy(&mut r)).collect::<Vec<_>>());
@@ -339,13 +354,23 @@ fn gen_validity(rng: &mut Rng, tier: &str) -> Vec<(String, Value)> {
         }
         cases.push((format!("random.{}", mode), c));
     }
+    // (e) malformed requests to the HTTP endpoints: must be answered 400, never with a classification
+    let some_vrps = json!([["10.0.0.0/8", 24, 64496], ["2001:db8::/32", 48, 64496]]);
+    for t in ["/api/v1/validity/ASx/10.0.0.0/8", "/api/v1/validity/AS64496", "/api/v1/validity/", "/api/v1/validity/AS64496/10.0.0.0/33",
+              "/api/v1/validity/AS64496/10.0.0.0", "/api/v1/validity/AS64496/::/129", "/api/v1/validity/4294967296/10.0.0.0/8",
+              "/api/v1/validity/AS64496/10.0.0/8", "/api/v1/validity/AS64496/10.0.0.0/8/24", "/api/v1/validity/AS-1/10.0.0.0/8",
+              "/validity", "/validity?asn=AS64496", "/validity?prefix=10.0.0.0%2F8", "/validity?asn=AS64496&prefix=10.0.0.0%2F8&x=1",
+              "/validity?asn=AS64496&prefix=10.0.0.0%2F40", "/validity?asn=64496x&prefix=10.0.0.0%2F8", "/validity?asn=AS64496&prefix=2001:db8::%2F200"] {
+        cases.push(("malformed.http".into(), json!({"vrps": some_vrps, "route": ["10.1.0.0/16", 64496],
+            "mode": if t.starts_with("/api") { "http_path" } else { "http_query" }, "target": t, "expect": "reject"})));
+    }
     // (d) large data sets
     let big = if tier == "thorough" { 6 } else { 2 };
     for i in 0..big {
         let mut r = rng.fork();
         let (v4, rbits, rlen, rasn) = rand_route(&mut r);
         let mut vrps = Vec::new();
-        for _ in 0..1200 { vrps.push(related_vrp(&mut r, v4, rbits, rlen, rasn, 7)); }
+        for _ in 0..(if tier == "thorough" { 1500 } else { 500 }) { vrps.push(related_vrp(&mut r, v4, rbits, rlen, rasn, 7)); }
         for _ in 0..60 { let k = r.below(7); vrps.push(related_vrp(&mut r, v4, rbits, rlen, rasn, k)); }
         r.shuffle(&mut vrps);
         cases.push(("random.large".into(), json!({"vrps": vrps, "route": [pfx_str(v4, rbits, rlen), rasn], "mode": MODES[i % 2]})));
@@ -419,6 +444,29 @@ fn obs_json(v: &Value, snap: &PayloadSnapshot, route: (Prefix, Asn)) -> Obs {
     }
 }
 
+
+thread_local! { static ENV: std::cell::RefCell<Option<Env>> = const { std::cell::RefCell::new(None) }; }
+
+/// Percent-encoding for a query value (everything but unreserved characters).
+fn pct(s: &str) -> String {
+    s.bytes().map(|b| if b.is_ascii_alphanumeric() || b"-._~".contains(&b) { (b as char).to_string() } else { format!("%{:02X}", b) }).collect()
+}
+
+/// Installs the data set by a real validation cycle and sends one GET through the real dispatcher.
+/// Returns the snapshot the server answered from, the status and the body.
+fn http_get(vrps: &Value, target: &str) -> (std::sync::Arc<PayloadSnapshot>, u16, Vec<u8>) {
+    ENV.with(|cell| {
+        let mut slot = cell.borrow_mut();
+        let env = slot.get_or_insert_with(|| Env::new(|c| { c.history_size = 2; }));
+        env.cycle(&json!({"origins": vrps}), 0, false).expect("validation cycle");
+        let snap = env.history.read().current().expect("current snapshot");
+        let resp = env.get(target, &[]);
+        (snap, resp.status, resp.body)
+    })
+}
+
+fn bad_obs(code: u64) -> Obs { Obs { state: code, reason: code, desc: code, lists: [vec![], vec![], vec![]], extra_ok: false } }
+
 fn coq_item(o: &RouteOrigin, tag: u64) -> String {
     let (v4, b, l) = fields(o.prefix.prefix());
     format!("V {} {} {} {} {} {}", coq_bool(v4), coq_bits(v4, b), l, coq_opt(o.prefix.max_len().map(|x| x.to_string())), o.asn.into_u32(), tag)
@@ -426,12 +474,13 @@ fn coq_item(o: &RouteOrigin, tag: u64) -> String {
 
 fn run_validity(input: &Value) -> CaseOut {
     if std::env::var("C20_DEBUG").is_ok() { eprintln!("{}", input); }
+    let mode = input["mode"].as_str().unwrap_or("api");
+    let rstr = input["route"][0].as_str().unwrap();
+    let asn = Asn::from_u32(input["route"][1].as_u64().unwrap() as u32);
+    if mode.starts_with("http_") { return run_http(input, mode, rstr, asn) }
     let snap = snapshot_of(&json!({"origins": input["vrps"]}));
     assert_eq!(snap.origins().count(), input["vrps"].as_array().unwrap().len(), "snapshot lost or invented VRPs");
-    let rstr = input["route"][0].as_str().unwrap();
     let prefix = Prefix::from_str(rstr).expect("route prefix");
-    let asn = Asn::from_u32(input["route"][1].as_u64().unwrap() as u32);
-    let mode = input["mode"].as_str().unwrap_or("api");
     let e = vec![];
     let before = input["before"].as_array().unwrap_or(&e);
     let after = input["after"].as_array().unwrap_or(&e);
@@ -443,7 +492,7 @@ fn run_validity(input: &Value) -> CaseOut {
                 let bytes = RouteValidity::new(prefix, asn, &snap).into_json(&snap);
                 match serde_json::from_slice::<Value>(&bytes) {
                     Ok(v) => obs_json(&v["validated_route"], &snap, (prefix, asn)),
-                    Err(_) => Obs { state: 98, reason: 98, desc: 98, lists: [vec![], vec![], vec![]], extra_ok: false },
+                    Err(_) => bad_obs(98),
                 }
             }
             _ => {
@@ -485,18 +534,56 @@ fn run_validity(input: &Value) -> CaseOut {
                         }
                         o
                     }
-                    Err(_) => Obs { state: 98, reason: 98, desc: 98, lists: [vec![], vec![], vec![]], extra_ok: false },
+                    Err(_) => bad_obs(98),
                 }
             }
         }
     }));
-    let o = res.unwrap_or(Obs { state: 97, reason: 97, desc: 97, lists: [vec![], vec![], vec![]], extra_ok: false });
+    let o = res.unwrap_or_else(|_| bad_obs(97));
+    emit(&snap, prefix, asn, o)
+}
+
+/// GET /api/v1/validity/{asn}/{prefix} and GET /validity?asn=..&prefix=.. (src/http/validity.rs).
+/// With "expect": "reject" the request is malformed and must be answered 400 without a classification
+/// (checked here; the emitted case is then the typed-API answer for a fixed route, or an unknown state).
+fn run_http(input: &Value, mode: &str, rstr: &str, asn: Asn) -> CaseOut {
+    let reject = input["expect"].as_str() == Some("reject");
+    let target = match input["target"].as_str() {
+        Some(t) => t.to_string(),
+        None => {
+            let a = if input["as_prefix"].as_bool() == Some(false) { asn.into_u32().to_string() } else { asn.to_string() };
+            if mode == "http_path" { format!("/api/v1/validity/{}/{}", a, rstr) }
+            else if input["swap"].as_bool() == Some(true) { format!("/validity?prefix={}&asn={}", pct(rstr), a) }
+            else { format!("/validity?asn={}&prefix={}", a, pct(rstr)) }
+        }
+    };
+    let res = std::panic::catch_unwind(std::panic::AssertUnwindSafe(|| http_get(&input["vrps"], &target)));
+    let Ok((snap, status, body)) = res else {
+        let snap = snapshot_of(&json!({"origins": input["vrps"]}));
+        return emit(&snap, Prefix::from_str_relaxed(rstr).expect("route prefix"), asn, bad_obs(97))
+    };
+    // the handler parses the prefix with from_str_relaxed: host bits are cleared
+    let prefix = Prefix::from_str_relaxed(rstr).expect("route prefix");
+    let o = if reject {
+        if status == 400 && serde_json::from_slice::<Value>(&body).map(|v| v.get("validated_route").is_none()).unwrap_or(true) {
+            obs_api(&RouteValidity::new(prefix, asn, &snap), &snap)
+        } else { bad_obs(94) }
+    } else if status != 200 { bad_obs(95) } else {
+        match serde_json::from_slice::<Value>(&body) {
+            Ok(v) => obs_json(&v["validated_route"], &snap, (prefix, asn)),
+            Err(_) => bad_obs(98),
+        }
+    };
+    emit(&snap, prefix, asn, o)
+}
+
+fn emit(snap: &PayloadSnapshot, prefix: Prefix, asn: Asn, o: Obs) -> CaseOut {
     let (rv4, rb, rl) = fields(prefix);
     let lists_json = |l: &Vec<(RouteOrigin, u64)>| l.iter().map(|(x, t)| json!([x.prefix.prefix().to_string(), x.prefix.max_len(), x.asn.into_u32(), t])).collect::<Vec<_>>();
     let obs = json!({
         "state": o.state, "reason": o.reason, "description": o.desc, "side_checks_ok": o.extra_ok,
         "matched": lists_json(&o.lists[0]), "unmatched_as": lists_json(&o.lists[1]), "unmatched_length": lists_json(&o.lists[2]),
-        "n_vrps": snap.origins().count(),
+        "n_vrps": snap.origins().count(), "route": [prefix.to_string(), asn.into_u32()],
     });
     let cl = |l: &Vec<(RouteOrigin, u64)>| coq_list(l.iter(), |(x, t)| coq_item(x, *t));
     let coq = format!(
@@ -510,8 +597,16 @@ fn run_validity(input: &Value) -> CaseOut {
 
 fn main() {
     match std::env::var("C20_STREAM").unwrap_or_default().as_str() {
-        "covers" => drive(gen_covers, run_covers),
-        "parse" => drive(gen_parse, run_parse),
+        "prefix" => drive(
+            |rng, tier| {
+                let mut c: Vec<(String, Value)> = gen_covers(rng, tier).into_iter().map(|(k, v)| (format!("covers.{}", k), v)).collect();
+                c.extend(gen_parse(rng, tier).into_iter().map(|(k, v)| (format!("parse.{}", k), v)));
+                // interleave so that the 16 evaluation shards carry the same load
+                let mut buckets: Vec<Vec<(String, Value)>> = (0..16).map(|_| Vec::new()).collect();
+                for (i, x) in c.into_iter().enumerate() { buckets[i % 16].push(x); }
+                buckets.into_iter().flatten().collect()
+            },
+            |input| if input.get("a").is_some() { run_covers(input) } else { run_parse(input) }),
         _ => drive(gen_validity, run_validity),
     }
 }
